@@ -202,6 +202,7 @@ def run(ctx):
     vlib.build(["voptical"])
     q = ctx.quick
     if getattr(ctx, "replay", None):
+        ctx.replay = os.path.abspath(ctx.replay)
         ok, tr = vlib.validate_trace("OpticalTrace", "OpticalTrace", ctx.replay, timeout=2400)
         s = _summary(tr.out) or {}
         print(json.dumps(s, indent=1)[:4000])
